@@ -20,6 +20,7 @@ const (
 	sigFloat = "size-above-2p53-not-representable"
 	sigToml  = "sizev2-above-maxint64-unreadable-from-toml"
 	sigWrap  = "duration-sum-wraps-at-2p64"
+	sigNL    = "ssizev1-bare-suffix-after-newline-is-decimal"
 )
 
 var typeNames = []string{"SizeV1", "SSizeV1", "SizeV2", "SSizeV2", "Duration"}
@@ -302,6 +303,17 @@ func wrapShape(text []byte) bool {
 	return false
 }
 
+var nlRe = regexp.MustCompile(`\A([\t\n\f\r ]*)[+-]?[0-9]+[\t\n\f\r ]*[kKmMgG][\t\n\f\r ]*\z`)
+
+// SSizeV1 only: a bare k/m/g suffix on a text whose leading whitespace contains a newline
+func newlineShape(ty string, text []byte) bool {
+	if ty != "SSizeV1" {
+		return false
+	}
+	m := nlRe.FindSubmatch(text)
+	return m != nil && bytes.IndexByte(m[1], '\n') >= 0
+}
+
 func runParse(w *vh.W, c *jcase) {
 	text := bytesOf(c.Text)
 	c.Quoted = strconv.Quote(string(text))
@@ -311,6 +323,8 @@ func runParse(w *vh.W, c *jcase) {
 		if wrapShape(text) {
 			sig = sigWrap
 		}
+	} else if newlineShape(c.Type, text) {
+		sig = sigNL
 	} else if floatShape(text) {
 		sig = sigFloat
 	}
